@@ -90,11 +90,14 @@ FlushedAway(r) == \* the client received an Rflush for a flush that named r's ta
                           /\ rq[wire[i].req].oldtag = rq[r].tag
                           /\ wire[i].req > r
 
+AbortedByVersion(r) == \* the client received the Rversion of a Tversion sent after r: the session was reset
+  \E i \in 1..Len(wire) : rq[wire[i].req].kind = "Version" /\ wire[i].req > r
+
 Answered(r) == \E i \in 1..Len(wire) : wire[i].req = r
 (* a tag is busy while a request carrying it is unanswered and not flushed away, and also while a
    Tflush naming it is unanswered (flush(5): oldtag may be reused only once the Rflush arrives) *)
-TagBusy(t) == \/ \E r \in 1..nreq : rq[r].tag = t /\ ~Answered(r) /\ ~FlushedAway(r)
-              \/ \E q \in 1..nreq : rq[q].kind = "Flush" /\ rq[q].oldtag = t /\ ~Answered(q)
+TagBusy(t) == \/ \E r \in 1..nreq : rq[r].tag = t /\ ~Answered(r) /\ ~FlushedAway(r) /\ ~AbortedByVersion(r)
+              \/ \E q \in 1..nreq : rq[q].kind = "Flush" /\ rq[q].oldtag = t /\ ~Answered(q) /\ ~AbortedByVersion(q)
 
 (* requests still linked into conn.reqs *)
 RECURSIVE ChainOf(_)
